@@ -5,6 +5,8 @@
   implementation on generated inputs: the kernel re-checks, against what the source says now, that the model computes
   the same function as the translated source text. Trusted here: the translator (funcs.go, a loop-free scalar subset
   of Go) and `Sipsp.GoSem`.
+  Methods with a pointer receiver to a STRUCT whose scalar fields they assign are translated as "fields in, assigned
+  fields out"; a `panic(...)` statement is `none`.
   Functions that READ a byte slice (`len`, `buf[i]`) are translated into `Option`: `none` is Go's index-out-of-range
   panic; the tie then also says that the function never panics.
   Finite domains are settled by `decide` over the whole domain (complete: such a proof can only fail when the two
@@ -222,6 +224,62 @@ theorem hdrFlagsTest_after_set (f t : UInt16) (ht : t.toNat < 16) :
     cases (f.toBitVec)[i] <;> simp
   rw [e]
   exact bne_iff_ne.mpr hne
+
+/-! ### methods that assign struct fields and may panic: `PField.Set`, `PField.Extend` -/
+
+private theorem ofInt16_nat (n : Nat) : GoSem.ofInt16 (Int.ofNat n) = UInt16.ofNat (n % 65536) := by
+  unfold GoSem.ofInt16
+  have : ((Int.ofNat n) % 65536).toNat = n % 65536 := by
+    have h : (Int.ofNat n) % 65536 = Int.ofNat (n % 65536) := by simp
+    rw [h]; rfl
+  rw [this]
+
+-- TIE: PField.Set
+/-- **`PField.Set(start, end)` (parse_types.go)**: the translated method — a pointer receiver to a struct becomes "fields
+    in, assigned fields out", Go's `panic("invalid range")` becomes `none` — panics exactly when the model's `setPanics`
+    says so (`end < start`) and otherwise stores exactly the model's field (16-bit truncation of the offset and of the
+    length), for all natural `start`, `end`. This is the site every parser reports its spans through. -/
+theorem set_tie (o l : UInt16) (s e : Nat) :
+    Gen.F.PField_Set o l (Int.ofNat s) (Int.ofNat e) =
+      if PField.setPanics s e then none
+      else some (UInt16.ofNat (PField.set s e).offs, UInt16.ofNat (PField.set s e).len) := by
+  unfold Gen.F.PField_Set PField.setPanics PField.set
+  simp only [Option.bind_some]
+  by_cases h : e < s
+  · have hd : decide ((Int.ofNat e : Int) < Int.ofNat s) = true := by
+      apply decide_eq_true; show (e : Int) < (s : Int); omega
+    simp [hd, h]
+  · have hd : decide ((Int.ofNat e : Int) < Int.ofNat s) = false := by
+      apply decide_eq_false; show ¬ (e : Int) < (s : Int); omega
+    have hsub : (Int.ofNat e - Int.ofNat s) = Int.ofNat (e - s) := by
+      show (e : Int) - (s : Int) = ((e - s : Nat) : Int); omega
+    rw [hsub, ofInt16_nat, ofInt16_nat]
+    simp [hd, h, trunc16]
+
+-- TIE: PField.Extend
+/-- **`PField.Extend(newEnd)`**: panics exactly when `extendPanics` says so (`newEnd < Offs`), otherwise the new length is
+    the model's (uint16 subtraction), for every field with a 16-bit offset and every natural `newEnd` -/
+theorem extend_tie (l : UInt16) (p : PField) (e : Nat) (hp : p.offs < 65536) :
+    Gen.F.PField_Extend l (UInt16.ofNat p.offs) (Int.ofNat e) =
+      if p.extendPanics e then none else some (UInt16.ofNat (p.extend e).len) := by
+  unfold Gen.F.PField_Extend PField.extendPanics PField.extend
+  have ho : (UInt16.ofNat p.offs).toNat = p.offs := by simp [UInt16.toNat_ofNat', Nat.mod_eq_of_lt hp]
+  simp only [Option.bind_some, ho]
+  by_cases h : e < p.offs
+  · have hd : decide ((Int.ofNat e : Int) < Int.ofNat p.offs) = true := by
+      apply decide_eq_true; show (e : Int) < (p.offs : Int); omega
+    rw [hd]; simp [h]
+  · have hd : decide ((Int.ofNat e : Int) < Int.ofNat p.offs) = false := by
+      apply decide_eq_false; show ¬ (e : Int) < (p.offs : Int); omega
+    rw [hd, ofInt16_nat]
+    simp only [h, Bool.false_eq_true, if_false, decide_false]
+    congr 1
+    apply UInt16.toNat_inj.mp
+    simp only [UInt16.toNat_sub, UInt16.toNat_ofNat', trunc16]
+    have h1 : e % 65536 % 2 ^ 16 = e % 65536 := by omega
+    have h2 : p.offs % 2 ^ 16 = p.offs := by omega
+    rw [h1, h2]
+    omega
 
 /-! ### a function that reads a slice: `skipCRLF` -/
 
